@@ -8,6 +8,7 @@ import (
 	"encoding/json"
 	"errors"
 	"fmt"
+	"io/fs"
 	"iter"
 	"strings"
 	"time"
@@ -57,7 +58,7 @@ func (c19) FaultKinds() []string {
 	return []string{"F8_cancel_range_break", "F8_cancel_callback_false", "F8_cancel_pull_stop", "F8_reentrant_range_over_same_iterator", "F8_consumer_unwinds_by_panic"}
 }
 func (c19) Probes() []string {
-	return []string{"cancel_at_first", "cancel_at_last", "cancel_between_siblings_of_nested_join", "join_of_one", "real_cfg_error_tree", "no_cancel_full_traversal", "real_cfg_error_count_checked", "same_error_value_twice_in_tree", "same_iterator_value_reused", "tree_deeper_than_16", "tree_deeper_than_64"}
+	return []string{"cancel_at_first", "cancel_at_last", "cancel_between_siblings_of_nested_join", "join_of_one", "real_cfg_error_tree", "no_cancel_full_traversal", "real_cfg_error_count_checked", "same_error_value_twice_in_tree", "same_iterator_value_reused", "tree_deeper_than_16", "tree_deeper_than_64", "leaf_with_an_unwrap_method"}
 }
 
 func genTree(r *R, depth int, next *int) TNode {
@@ -148,12 +149,22 @@ type leafErr struct{ id int }
 
 func (l *leafErr) Error() string { return fmt.Sprintf("cors: leaf %d", l.id) }
 
+type causeErr struct{ id int }
+
+func (e *causeErr) Error() string { return fmt.Sprintf("cors: leaf %d (no cause)", e.id) }
+func (e *causeErr) Unwrap() error { return nil }
+
+type valErr struct{ id int }
+
+func (e valErr) Error() string { return fmt.Sprintf("cors: value leaf %d", e.id) }
+
 type errBuilder struct {
 	leaves    map[int]error
 	joinsSeen []error
 	joins     int
 	joinOfOne bool
 	shared    bool
+	wrapping  bool // some leaf has an Unwrap() error method
 }
 
 func (b *errBuilder) build(t TNode) error {
@@ -169,10 +180,25 @@ func (b *errBuilder) build(t TNode) error {
 			b.shared = true
 			return e
 		}
+		// a leaf is ANY error that is not a join: the library's own types, plain errors, and
+		// the errors callers join in - annotated with %w, carrying an optional cause,
+		// standard-library errors, value types. None of them is looked INTO.
 		var e error
-		if t.Leaf%2 == 0 {
+		switch t.Leaf % 7 {
+		case 0, 2:
 			e = &cfgerrors.UnacceptableMethodError{Value: fmt.Sprint(t.Leaf), Reason: "invalid"}
-		} else {
+		case 3:
+			e = fmt.Errorf("tenant %d: %w", t.Leaf, &leafErr{-t.Leaf}) // has Unwrap() error
+			b.wrapping = true
+		case 4:
+			e = &causeErr{id: t.Leaf} // Unwrap() error returning nil
+			b.wrapping = true
+		case 5:
+			e = &fs.PathError{Op: "open", Path: fmt.Sprintf("cors-%d.json", t.Leaf), Err: fs.ErrNotExist}
+			b.wrapping = true
+		case 6:
+			e = valErr{t.Leaf} // a comparable value type
+		default:
 			e = &leafErr{t.Leaf}
 		}
 		b.leaves[t.Leaf] = e
@@ -232,6 +258,9 @@ func (c19) Exec(plan any, c *Ctx) *Violation {
 		joins, joinOfOne = b.joins, b.joinOfOne
 		if b.shared {
 			c.hit("same_error_value_twice_in_tree")
+		}
+		if b.wrapping {
+			c.hit("leaf_with_an_unwrap_method")
 		}
 		if d := treeDepth(*p.Tree); d > 64 {
 			c.hit("tree_deeper_than_64")
